@@ -24,6 +24,8 @@ package writer
 //@ define NE(w) = len(w.writerState.elements.stack)
 //@ define NF(w) = len(w.writerState.fields.stack)
 //@ define BL(w) = blen(w.writerState.buf)
+//@ define FE(w, k) = w.writerState.fields.stack[k]
+//@ define EE(w, k) = w.writerState.elements.stack[k]
 
 // Stack invariant STK(w): every open entry starts inside the buffer, starts are non-decreasing
 // towards the top, a data entry ends inside the buffer, and a list / message entry's table
@@ -415,6 +417,12 @@ package writer
 //@   ensures[C12] w.err == nil ==> STK7(w)
 //@   ensures[C12] STICKY(w, result)
 //@   ensures[C12] old(w.err) == nil && result == nil ==> w.err == nil
+//   C01: the element table gets one more entry: the END of the element's data relative to the start
+//   of the enclosing list; earlier entries are unchanged
+//@   ensures[C01] old(w.err) == nil && result == nil ==> old(NS(w)) >= 2 && NS(w) == old(NS(w)) - 1 && NE(w) == old(NE(w)) + 1
+//@   ensures[C01] old(w.err) == nil && result == nil && old(BL(w)) <= 4294967295 ==>
+//@        EE(w, NE(w) - 1).Offset == old(SE(w, NS(w) - 1).tableStart) - old(SE(w, NS(w) - 2).start)
+//@   ensures[C01] old(w.err) == nil && result == nil ==> (forall k :: 0 <= k && k < old(NE(w)) ==> EE(w, k).Offset == old(EE(w, k).Offset))
 
 //@ func (*writer).listLen
 //@   safety[C12]
@@ -471,6 +479,20 @@ package writer
 //@   ensures[C12] w.err == nil ==> STK7(w)
 //@   ensures[C12] STICKY(w, result1)
 //@   ensures[C12] old(w.err) == nil && result1 == nil ==> w.err == nil
+//   C01: as endMessage, for the element table (small/big by count and by the LAST offset, hence
+//   the clause is stated for tables whose offsets do not exceed the last one)
+//@   let lT0 = SE(w, NS(w) - 1).tableStart
+//@   let lN = NE(w) - lT0
+//@   let lDS = BL(w) - SE(w, NS(w) - 1).start
+//@   let lL0 = BL(w)
+//@   let lTab = w.writerState.elements.stack[lT0:NE(w)]
+//@   let lBig = len(lTab) > 255 || (exists k :: 0 <= k && k < len(lTab) && lTab[k].Offset > 65535)
+//@   let lTS = lN * ite(lBig, 4, 2)
+//@   let lMono = forall k :: 0 <= k && k < len(lTab) ==> lTab[k].Offset <= lTab[len(lTab)-1].Offset
+//@   ensures[C01] old(w.err) == nil && result1 == nil ==> NE(w) == lT0 && NS(w) == old(NS(w)) && SE(w, NS(w) - 1).type_ == 1 && SE(w, NS(w) - 1).start == old(SE(w, NS(w) - 1).start) && SE(w, NS(w) - 1).tableStart == BL(w)
+//@   ensures[C01] old(w.err) == nil && result1 == nil && lMono ==> BL(w) == lL0 + lTS + uvarintLen(lDS) + uvarintLen(lTS) + 1 && isUvarint(bytesOf(bobj(w.writerState.buf)), lL0 + lTS, uvarintLen(lDS), lDS)
+//@   ensures[C01] old(w.err) == nil && result1 == nil && lMono && !lBig ==> (forall k :: 0 <= k && k < lN ==> listSmallEnd(bytesOf(bobj(w.writerState.buf)), lL0, k) == old(lTab[k].Offset))
+//@   ensures[C01] old(w.err) == nil && result1 == nil && lMono && lBig ==> (forall k :: 0 <= k && k < lN ==> listBigEnd(bytesOf(bobj(w.writerState.buf)), lL0, k) == old(lTab[k].Offset))
 
 // ---- writer: messages
 
@@ -539,6 +561,13 @@ package writer
 //@   ensures[C12] w.err == nil ==> STK7(w)
 //@   ensures[C12] STICKY(w, result)
 //@   ensures[C12] old(w.err) == nil && result == nil ==> w.err == nil
+//   C01: the field table entry records the tag and the END of the field's data relative to the
+//   start of the enclosing message (data entry = old top of stack, message = the entry below it)
+//@   ensures[C01] old(w.err) == nil && result == nil ==> old(NS(w)) >= 2 && NS(w) == old(NS(w)) - 1 && NF(w) == old(NF(w)) + 1
+//@   ensures[C01] old(w.err) == nil && result == nil && old(BL(w)) <= 4294967295 ==>
+//@        (exists p :: old(SE(w, NS(w) - 2).tableStart) <= p && p < NF(w) && FE(w, p).Tag == tag
+//@           && FE(w, p).Offset == old(SE(w, NS(w) - 1).tableStart) - old(SE(w, NS(w) - 2).start))
+//@   ensures[C01] old(w.err) == nil && result == nil ==> (forall k :: 0 <= k && k < old(SE(w, NS(w) - 2).tableStart) ==> FE(w, k).Tag == old(FE(w, k).Tag) && FE(w, k).Offset == old(FE(w, k).Offset))
 
 //@ func (*writer).hasField
 //@   safety[C12]
@@ -595,6 +624,19 @@ package writer
 //@   ensures[C12] w.err == nil ==> STK7(w)
 //@   ensures[C12] STICKY(w, result1)
 //@   ensures[C12] old(w.err) == nil && result1 == nil ==> w.err == nil
+//   C01: the bytes appended are the field table in stack order followed by the trailer; the data
+//   size is the distance from the message start; the message becomes one data entry [start, end)
+//@   let mT0 = SE(w, NS(w) - 1).tableStart
+//@   let mN = NF(w) - mT0
+//@   let mDS = BL(w) - SE(w, NS(w) - 1).start
+//@   let mL0 = BL(w)
+//@   let mTab = w.writerState.fields.stack[mT0:NF(w)]
+//@   let mBig = exists k :: 0 <= k && k < len(mTab) && (mTab[k].Tag > 255 || mTab[k].Offset > 65535)
+//@   let mTS = mN * ite(mBig, 6, 3)
+//@   ensures[C01] old(w.err) == nil && result1 == nil ==> NF(w) == mT0 && NS(w) == old(NS(w)) && SE(w, NS(w) - 1).type_ == 1 && SE(w, NS(w) - 1).start == old(SE(w, NS(w) - 1).start) && SE(w, NS(w) - 1).tableStart == BL(w)
+//@   ensures[C01] old(w.err) == nil && result1 == nil ==> BL(w) == mL0 + mTS + uvarintLen(mDS) + uvarintLen(mTS) + 1 && isUvarint(bytesOf(bobj(w.writerState.buf)), mL0 + mTS, uvarintLen(mDS), mDS)
+//@   ensures[C01] old(w.err) == nil && result1 == nil && !mBig ==> (forall k :: 0 <= k && k < mN ==> smallTag(bytesOf(bobj(w.writerState.buf)), mL0, k) == old(mTab[k].Tag) && smallOff(bytesOf(bobj(w.writerState.buf)), mL0, k) == old(mTab[k].Offset))
+//@   ensures[C01] old(w.err) == nil && result1 == nil && mBig ==> (forall k :: 0 <= k && k < mN ==> bigTag(bytesOf(bobj(w.writerState.buf)), mL0, k) == old(mTab[k].Tag) && bigOff(bytesOf(bobj(w.writerState.buf)), mL0, k) == old(mTab[k].Offset))
 
 // ---- writer: values and end
 
